@@ -209,6 +209,73 @@ def run(ctx):
                                   % (k, sorted(written) or norm(p)[:40], k, attrs, cname)))
     ctx.floor('line-order pairs', n_order, 10)
     # ---- R-LINESTATE: the reader's line-number state machine is consistent (size algebra over its own definitions)
+    # ---- R-UNITFIELD: a written 'NAME, UNITS' line reads back as exactly that name and those units (finite case analysis)
+    from .. import consteval
+    ctx.rule('R-UNITFIELD', "reader: a variable line 'NAME, UNITS' (as written) yields name NAME and units UNITS, also for empty units")
+    rdf = mod.func('ffi1001.__init__')
+    wrd = 'src/PseudoNetCDF/%s ffi1001.__init__' % RP
+    branch = None
+    for st in iter_stmts(rdf.body):
+        if isinstance(st, ast.If) and 'MISSING_LINE' in norm(st.test) and 'LAST_VAR_DESC_LINE' in norm(st.test):
+            branch = st
+    wl = [st for st in iter_stmts(fn.body) if is_print_to(st) and isinstance(st.value.args[0], ast.Call) and norm(st.value.args[0]).startswith('delim.join([key, getattr(var, \'units\'')]
+    if branch is None or not wl:
+        ctx.undec('R-UNITFIELD', 'variable lines', wrd, 'variable-description branch of the reader or the writer line delim.join([key, units]) not found in the recognised form')
+    else:
+        bad = None
+        unk = None
+        for nm, un in (('O3', 'ppbv'), ('FLAG', ''), ('NO_2', ''), ('RATIO', '1'), ('T (K)', 'K'), ('A_B', 'ug/m3')):
+            env = consteval.run_block(branch.body, {'line': '%s, %s\n' % (nm, un), 'units': []}, want_env=True)
+            if env is consteval.UNK or env.get('units') is consteval.UNK or env.get('name') is consteval.UNK:
+                unk = (nm, un)
+                continue
+            if env.get('units') != [un] or env.get('name') != nm:
+                bad = (nm, un, env.get('name'), env.get('units'))
+                break
+        if bad:
+            ctx.violation(Finding('R-UNITFIELD', RP, 'ffi1001.__init__', branch.body[0] if not isinstance(branch.body[0], ast.Assign) else
+                                  ([s2 for s2 in branch.body if isinstance(s2, ast.If)] or branch.body)[0],
+                                  "the written line %r reads back as name %r, units %r: names/units do not survive the round trip" % ('%s, %s' % bad[:2], bad[2], bad[3])))
+        elif unk:
+            ctx.undec('R-UNITFIELD', 'variable lines', wrd, 'reader branch outside the evaluated fragment for %r' % (unk,))
+        else:
+            ctx.ok('R-UNITFIELD', 'variable lines', wrd, '6 sample lines (empty units, underscores, parentheses) read back exactly')
+    # ---- R-DATASHAPE: the parsed data block is given its 2-D shape explicitly before it is indexed per variable
+    ctx.rule('R-DATASHAPE', 'reader: the text-parsed data block is reshaped to (records, variables) before per-variable indexing (a single row/column parses to 1-D)')
+    state = {}
+    nshape = 0
+    for st in iter_stmts(rdf.body):
+        if isinstance(st, ast.Assign) and len(st.targets) == 1 and isinstance(st.targets[0], ast.Name):
+            nm = st.targets[0].id
+            v = st.value
+            if isinstance(v, ast.Call) and (dotted(v.func) or '').split('.')[-1] in ('genfromtxt', 'loadtxt', 'fromstring', 'fromfile'):
+                nd = kw(v, 'ndmin')
+                state[nm] = 'SHAPED' if (nd is not None and isinstance(nd, ast.Constant) and nd.value == 2 and not (kw(v, 'unpack') is not None)) else 'RAW'
+                continue
+            if isinstance(v, ast.Call) and isinstance(v.func, ast.Attribute) and isinstance(v.func.value, ast.Name) and v.func.value.id in state:
+                src_ = v.func.value.id
+                if v.func.attr == 'reshape' and (len(v.args) == 2 or (len(v.args) == 1 and isinstance(v.args[0], ast.Tuple) and len(v.args[0].elts) == 2)):
+                    state[nm] = 'SHAPED'
+                elif v.func.attr in ('swapaxes', 'transpose', 'T', 'copy', 'astype'):
+                    if state[src_] == 'RAW' and v.func.attr in ('swapaxes', 'transpose'):
+                        ctx.violation(Finding('R-DATASHAPE', RP, 'ffi1001.__init__', st, 'axes of the parsed block are exchanged before it has an explicit 2-D shape'))
+                    state[nm] = state[src_]
+                else:
+                    state.pop(nm, None)
+                continue
+            # per-variable read
+            for n in ast.walk(v):
+                if isinstance(n, ast.Subscript) and isinstance(n.value, ast.Name) and n.value.id in state:
+                    nshape += 1
+                    if state[n.value.id] == 'RAW':
+                        ctx.violation(Finding('R-DATASHAPE', RP, 'ffi1001.__init__', st, 'the parsed data block %s is indexed per variable without an explicit reshape to '
+                                              '(records, variables): a file with one record (or one column) parses to fewer dimensions and every variable gets the wrong shape' % n.value.id))
+                    else:
+                        ctx.ok('R-DATASHAPE', norm(st)[:40], wrd, 'indexed after reshape(records, variables)')
+            if nm in state:
+                state.pop(nm, None)
+    if not nshape:
+        ctx.undec('R-DATASHAPE', 'data block', wrd, 'per-variable indexing of the parsed block not found')
     ctx.rule('R-LINESTATE', 'reader line constants: variable lines, special-comment block and user-comment block are contiguous')
     lenv = {}
     defs = {}
@@ -260,6 +327,53 @@ def run(ctx):
             ctx.violation(Finding('R-MISSRC', RP, W, api.stmt_of(c),
                                   'the header declares getattr(var, %r, %s) as missing code but masked cells are filled with %s: '
                                   'whenever the two differ the cells read back as valid data' % (dkey[0], dkey[1], norm(fv) if fv is not None else "the array's own fill_value")))
+    # ---- R-MISSFMT: the declared code is written with at least the precision of the data cells that carry it
+    ctx.rule('R-MISSFMT', 'the declared missing code is converted to text with at least as many significant digits as the data cells')
+    tf0 = [c for c in walk_expr(data_loop) if isinstance(c, ast.Call) and isinstance(c.func, ast.Attribute) and c.func.attr == 'tofile']
+    fmt0 = const_str(kw(tf0[0], 'format')) if tf0 and kw(tf0[0], 'format') is not None else None
+    m0 = re.match(r'^%\.(\d+)e$', fmt0 or '')
+    data_sig = int(m0.group(1)) + 1 if m0 else None
+
+    def conv_sig(e):
+        """significant digits kept by the text conversion that wraps the getattr call; None = not understood"""
+        if isinstance(e, ast.Call) and dotted(e.func) in ('str', 'repr') and len(e.args) == 1:
+            return 17, '%s()' % dotted(e.func)
+        if isinstance(e, ast.BinOp) and isinstance(e.op, ast.Mod) and isinstance(e.left, ast.Constant) and isinstance(e.left.value, str):
+            mm = re.match(r'^%(?:\.(\d+))?([sreEgGfdi])$', e.left.value)
+            if not mm:
+                return None, e.left.value
+            prec, ch = mm.group(1), mm.group(2)
+            if ch in 'sr':
+                return 17, e.left.value
+            if ch in 'gG':
+                return (int(prec) if prec is not None else 6) or 1, e.left.value
+            if ch in 'eE':
+                return (int(prec) if prec is not None else 6) + 1, e.left.value
+            if ch in 'di':
+                return 0, e.left.value
+            return None, e.left.value
+        if isinstance(e, ast.JoinedStr) and len(e.values) == 1 and isinstance(e.values[0], ast.FormattedValue):
+            fv_ = e.values[0]
+            spec = const_str(fv_.format_spec.values[0]) if fv_.format_spec is not None and fv_.format_spec.values else ''
+            if not spec:
+                return 17, 'f-string'
+            mm = re.match(r'^(?:\.(\d+))?([eEgG])$', spec)
+            if mm:
+                prec, ch = mm.group(1), mm.group(2)
+                return ((int(prec) if prec is not None else 6) + (1 if ch in 'eE' else 0)), spec
+            return None, spec
+        return None, norm(e)[:30]
+    conv = getattr(d, '_parent', None)
+    sig, how = conv_sig(conv) if conv is not None else (None, '?')
+    if sig is None or data_sig is None:
+        ctx.undec('R-MISSFMT', 'declared code', where, 'text conversion of the declared code not understood: %s' % how)
+    elif sig >= data_sig:
+        ctx.ok('R-MISSFMT', 'declared code', where, '%s keeps %s significant digits >= %d of the data format %s' % (how, sig if sig < 17 else 'all', data_sig, fmt0))
+    else:
+        ctx.violation(Finding('R-MISSFMT', RP, W, miss_print, 'the declared missing code is written with %s (%d significant digits%s) while data cells carry it with %s (%d): '
+                              'for a code with more digits the declared and the filled value differ and no cell reads back as missing' % (
+                                  how, sig, ', integer part only' if sig == 0 else '', fmt0, data_sig)))
+    ctx.assumptions.append('missing-value codes have at most as many significant digits as the data format writes (%s)' % fmt0)
     # ---- R-PRECISION
     tf = [c for c in walk_expr(data_loop) if isinstance(c, ast.Call) and isinstance(c.func, ast.Attribute) and c.func.attr == 'tofile']
     fmt = const_str(kw(tf[0], 'format')) if tf and kw(tf[0], 'format') is not None else None
